@@ -413,6 +413,88 @@ def _check_mapping(model: Model, rep) -> None:
 
 
 # ----------------------------------------------------------------------
+def _trin3_siblings(model, rep):
+    """ElementTriN3 overrides gbasis and builds the mapped value / curl of
+    up to three local functions (the plain one and the pair it may be
+    exchanged with) from the same Piola expressions.  Cross-check of the
+    siblings: after renaming the per-function suffixes, all value
+    expressions are one expression and all curl expressions are one
+    expression; and the orientation sign multiplies the curl exactly when
+    it multiplies the value (curl(s * v) = s * curl v)."""
+    import re
+    R5 = "C09-R5"
+    cls = model.cls("skfem.element.element_tri.element_tri_n3",
+                    "ElementTriN3")
+    fn = cls.methods.get("gbasis")
+    if fn is None:
+        raise AnalysisError("ElementTriN3.gbasis not found")
+    pat = re.compile(r"^(val|curl|phi|dphi)(_\w+)?$")
+
+    class Ren(ast.NodeTransformer):
+        def visit_Name(self, n):
+            m = pat.match(n.id)
+            if m:
+                return ast.copy_location(ast.Name(id=m.group(1) + "_#",
+                                                  ctx=n.ctx), n)
+            return n
+    vals, curls = {}, {}
+    for st in ast.walk(fn.node):
+        if isinstance(st, ast.Assign) and len(st.targets) == 1 and \
+                isinstance(st.targets[0], ast.Name):
+            nm = st.targets[0].id
+            m = re.match(r"^(val|curl)_(\w+)$", nm)
+            if not m:
+                continue
+            # only the Piola expressions, not the masked combinations
+            if any(isinstance(x, ast.Name) and (
+                    x.id.startswith("mask")
+                    or re.match(r"^(val|curl)_\w+$", x.id))
+                    for x in ast.walk(st.value)):
+                continue
+            import copy
+            norm = ast.unparse(Ren().visit(copy.deepcopy(st.value)))
+            (vals if m.group(1) == "val" else curls)[m.group(2)] = (norm, st)
+    if len(vals) < 3 or set(vals) != set(curls):
+        raise AnalysisError(f"ElementTriN3.gbasis: value / curl siblings "
+                            f"{sorted(vals)} / {sorted(curls)} not found")
+    for kind, table in (("value", vals), ("curl", curls)):
+        forms = {}
+        for sfx, (norm, st) in table.items():
+            forms.setdefault(norm, []).append((sfx, st))
+        cons = f"ElementTriN3.gbasis:{kind}-siblings"
+        if len(forms) == 1:
+            rep.ok(R5, cons, f"{len(table)} sibling {kind} expressions are "
+                   f"one expression: {next(iter(forms))[:60]}")
+        else:
+            major = max(forms.values(), key=len)
+            for norm, lst in forms.items():
+                if lst is major:
+                    continue
+                sfx, st = lst[0]
+                rep.fail(R5, fn.path, "ElementTriN3.gbasis",
+                         f"{cons}[{sfx}]",
+                         f"{kind}_{sfx} = {ast.unparse(st.value)[:70]} "
+                         f"differs from its sibling(s) "
+                         f"{[s_ for s_, _ in major]}: the delivered {kind} "
+                         f"of the exchanged edge function is not mapped "
+                         f"like the others (e.g. the orientation sign is "
+                         f"missing, so the curl is minus the curl of the "
+                         f"delivered value on reversed edges)", st.lineno)
+    for sfx in vals:
+        vo = "orient" in vals[sfx][0]
+        co = "orient" in curls[sfx][0]
+        cons = f"ElementTriN3.gbasis:sign[{sfx}]"
+        if vo == co:
+            rep.ok(R5, cons, "orientation sign on value and curl alike")
+        else:
+            rep.fail(R5, fn.path, "ElementTriN3.gbasis", cons,
+                     f"the orientation sign multiplies the "
+                     f"{'value' if vo else 'curl'} of function '{sfx}' but "
+                     f"not its {'curl' if vo else 'value'}",
+                     curls[sfx][1].lineno)
+
+
+# ----------------------------------------------------------------------
 def _power_basis(model, rep):
     """ElementGlobal builds its local functions from a power basis whose
     derivatives are generated as strings (coefficient loops + eval).  The
@@ -594,6 +676,7 @@ def run(model: Model, rep, tier: str) -> None:
     if [n for n in missing if n not in els] or real_missing:
         raise AnalysisError(f"frozen rule instances vanished: {missing}")
     _check_mapping(model, rep)
+    _trin3_siblings(model, rep)
     _wrappers(model, rep)
     rep.require_min("C09-R1", 240)
     rep.require_min("C09-R2", 20)
@@ -784,6 +867,10 @@ def _duality(rep, e: ElementInfo, name, path, ln):
 # ----------------------------------------------------------------------
 _E = "skfem/element/"
 MUTANTS = [
+    ("TriN3: exchanged edge function's curl without the orientation sign",
+     ("skfem/element/element_tri/element_tri_n3.py",
+      "            curl_B = dphi_B / detDF * orient[:, None]",
+      "            curl_B = dphi_B / detDF"), "C09-R5"),
     ("power basis: repeated z-derivatives use a constant factor",
      ("skfem/element/element_global.py",
       "                    cz *= k - dz + l", "                    cz *= k - "
